@@ -33,7 +33,7 @@ func HashBytes(b []byte) uint64 {
 
 // New returns the generator of case `index` of stream `tag` under `seed`.
 func New(seed uint64, tag string, index uint64) *R {
-	s := mix(seed ^ 0x5eed) ^ HashString(tag)
+	s := mix(seed^0x5eed) ^ HashString(tag)
 	s = mix(s + index*0x9e3779b97f4a7c15)
 	return &R{s: s}
 }
